@@ -44,6 +44,11 @@ def gen_case(seed, idx, tier):
     for k in range(nsp):
         style = STYLES[k] if k < len(STYLES) else {}
         order = uses if k == 0 else gen.permute_distinct(rng, cfg, uses)
+        if style.get("group") == "max":
+            # flags with a short key first (one behind the other, so that they can share a dash), then the rest
+            fl = [u for u in order if u.elems is None and u.arg.short and u.arg.value_mode() == "none"]
+            if len(fl) >= 2:
+                order = fl + [u for u in order if u not in fl]
         try:
             words, st = argh.spell_line(cfg, order, rng, style)
         except argh.ModelAbstain:
